@@ -158,6 +158,10 @@ func (vc *FuncVC) rebind(env *Env, sp *FuncSpec, fr *frame, res []Value) *Env {
 	}
 	fn := fr.fn
 	names := sp.Params
+	if sp.Kind == "functype" && len(fn.FreeVars) == 0 {
+		// the contract of a function type may talk about the function value being called
+		n.vars["self"] = TV{T: vc.closureRef(env.st, &ClosureVal{Fn: fn})}
+	}
 	for i, p := range fn.Params {
 		name := p.Name()
 		if i < len(names) {
